@@ -123,7 +123,17 @@ func TestReplay(t *testing.T) { vk.RunReplay(t, reg) }
 // token (all of which end in letter+':') can be spelled - built, not filtered.
 const letters = "abcdefghijklmnopqrstuvwxyzABCDEFGHIJKLMNOPQRSTUVWXYZ_-+./#@!$%&*()[]{}<>=?,;'\"\\|~^`"
 
+// words of the key spellings WITHOUT their colon: legal inside values (no key token is spelled)
+var bareWords = []string{"done", "submit", "date", "sub", "stat", "text", "err", "dlvrd", "id", "Sub", "Submit_Date", "Done_Date", "Text", "resubmitted", "undone", "idx", "submit_date", "done-date"}
+
 var valueGen = rapid.Custom(func(t *rapid.T) string {
+	if rapid.IntRange(0, 7).Draw(t, "bareword") == 0 {
+		w := rapid.SampledFrom(bareWords).Draw(t, "word")
+		if rapid.Bool().Draw(t, "suffix") {
+			w += string(rune('0' + rapid.IntRange(0, 9).Draw(t, "digit")))
+		}
+		return vk.Hex([]byte(w))
+	}
 	n := rapid.OneOf(rapid.IntRange(0, 12), rapid.IntRange(0, 40)).Draw(t, "len")
 	b := make([]byte, 0, n)
 	for len(b) < n {
@@ -148,6 +158,20 @@ var valueGen = rapid.Custom(func(t *rapid.T) string {
 // SMGP id: ten arbitrary octets (spaces and NULs included) without ':'.
 var idGen = rapid.Custom(func(t *rapid.T) string {
 	b := rapid.SliceOfN(rapid.OneOf(rapid.Byte(), rapid.SampledFrom([]byte{' ', 0, 'i', 'd', 's', 'u', 'b'})), 10, 10).Draw(t, "id")
+	switch rapid.IntRange(0, 7).Draw(t, "idclass") {
+	case 0: // ten octets that read as decimal text
+		for i := range b {
+			b[i] = '0' + b[i]%10
+		}
+	case 1: // ... as hexadecimal text
+		for i := range b {
+			b[i] = "0123456789abcdef"[b[i]%16]
+		}
+	case 2: // BCD-looking
+		for i := range b {
+			b[i] = (b[i]%10)<<4 | (b[i]>>4)%10
+		}
+	}
 	for i := range b {
 		if b[i] == ':' {
 			b[i] = ';'
